@@ -358,14 +358,20 @@ func Stack.PopOrWait$1
   modifies monitor(*b)
   ensures unlocked((*b).mutex)
   ensures mydebt((*b).elementRemoved) == ((*success && old(mydebt((*b).elementRemoved)) > 0) ? old(mydebt((*b).elementRemoved)) - 1 : old(mydebt((*b).elementRemoved)))
--- SignalShutdown wakes the goroutines asleep in PopOrWait WITHOUT taking the stack's lock: its callers hold locks that a
--- wait condition evaluated under the stack's lock asks for (the worker pool: Shutdown holds the pool mutex, the dispatcher's
--- wait condition is IsRunning) - taking the stack's lock here closes a lock-order cycle
+-- SignalShutdown wakes the goroutines in PopOrWait after their wait condition has been turned false. A goroutine that has
+-- just evaluated the condition (still true) and has not gone to sleep yet holds the stack's lock; the signal must not
+-- overtake it: SignalShutdown passes through the stack's lock before it returns (it takes the lock once - with the lock
+-- released again the Broadcast finds every such goroutine parked). Its callers must therefore not hold a lock that a wait
+-- condition takes (the worker pool's Shutdown: see there).
 func Stack.SignalShutdown
   instantiate T: int
   opt debts-change
-  requires b != nil && b.elementAdded != nil
+  requires b != nil && b.elementAdded != nil && unlocked(b.mutex)
   modifies monitor(b)
-  ghost after acquire: assert false
+  ghost local synced Bool        -- the call has been through the stack's lock (ghost)
+  ghost at entry: synced = false
+  ghost after acquire: synced = true
+  ghost at return: assert synced
+  ensures unlocked(b.mutex)
   ensures mydebt(b.elementAdded) == (old(mydebt(b.elementAdded)) > 0 ? old(mydebt(b.elementAdded)) - 1 : old(mydebt(b.elementAdded)))
 @*/
